@@ -48,7 +48,7 @@ def setup():
 def corpus_for(tier):
     if tier == 'thorough':
         if 'thorough' not in _C:
-            _C['thorough'] = edit_lib.load_corpus(edit_lib.THOROUGH_THEORIES + ['transcendentals', 'realderivative', 'trig_series'])
+            _C['thorough'] = edit_lib.load_corpus(edit_lib.THOROUGH_THEORIES)
         return _C['thorough']
     return _C['quick']
 
@@ -465,7 +465,7 @@ def shards(tier):
                [{'kind': 'mut', 'n': c, 'i': i} for i, c in enumerate(harness.split(900, 16))] + \
                [{'kind': 'gen', 'n': c, 'i': i} for i, c in enumerate(harness.split(1200, 4))] + \
                [{'kind': 'gen-inst', 'n': c, 'i': i} for i, c in enumerate(harness.split(1600, 8))]
-    return [{'kind': 'harvest', 'part': i, 'parts': 48, 'stride': 1} for i in range(48)] + \
+    return [{'kind': 'harvest', 'part': i, 'parts': 48, 'stride': 2} for i in range(48)] + \
            [{'kind': 'mut', 'n': c, 'i': i} for i, c in enumerate(harness.split(6000, 48))] + \
            [{'kind': 'gen', 'n': c, 'i': i} for i, c in enumerate(harness.split(20000, 16))] + \
            [{'kind': 'gen-inst', 'n': c, 'i': i} for i, c in enumerate(harness.split(20000, 16))]
